@@ -390,6 +390,15 @@ func (e *c04Env) do(op string, r *vfRng) {
 		}
 		idx, term := s.raft.AppliedIndex(), s.raft.CurrentTerm()
 		stop, done := make(chan struct{}), make(chan struct{})
+		// only the WAL file this call creates is a target: files staged earlier are left alone (the
+		// full-snapshot path removes the whole staging directory; touching it there would make
+		// that removal fail, which is not the failure meant here)
+		old := map[string]bool{}
+		if ms, _ := filepath.Glob(filepath.Join(s.walStagingDir, "*.wal")); len(ms) > 0 {
+			for _, m := range ms {
+				old[m] = true
+			}
+		}
 		go func() {
 			defer close(done)
 			for {
@@ -400,6 +409,9 @@ func (e *c04Env) do(op string, r *vfRng) {
 				}
 				if ms, _ := filepath.Glob(filepath.Join(s.walStagingDir, "*.wal")); len(ms) > 0 {
 					for _, m := range ms {
+						if old[m] {
+							continue
+						}
 						if _, err := os.Stat(m + ".crc32"); err != nil {
 							os.Mkdir(m+".crc32", 0o755)
 						}
@@ -414,6 +426,8 @@ func (e *c04Env) do(op string, r *vfRng) {
 		case err == ErrNoWALToSnapshot:
 			e.emit("snapbeginfail"+e.lvl, "nowal")
 			e.hist = append(e.hist, "FSM.Snapshot():nowal")
+		case err != nil && !strings.Contains(err.Error(), "CRC32 sum file"):
+			e.t.Fatalf("snapbeginfail: FSM.Snapshot() failed with something other than the provoked staging failure: %v (history %v)", err, e.hist)
 		case err != nil:
 			e.emit("snapbeginfail"+e.lvl, "err-stage")
 			e.hist = append(e.hist, "FSM.Snapshot() fails staging the checkpointed WAL: "+err.Error())
